@@ -1308,7 +1308,8 @@ def sparse_core_tucker(rng, shape):
 class ExtrasFam(C02Family):
     """operations DESIGN listed as not modelled: ktensor.mask, ttensor.reconstruct, Tucker with a sparse core"""
     name = "mask_reconstruct_sparsecore"
-    theorems = ("C02_mask_kruskal", "C02_mask_kruskal_rejects", "C02_tucker_full_sparse_core")
+    theorems = ("C02_mask_kruskal", "C02_mask_kruskal_rejects", "C02_tucker_full_sparse_core", "C02_ttv_tucker_sparse_core",
+                "C02_tucker_sparse_core_den", "C02_reconstruct_tucker", "C02_tucker_refactor_full", "C02_reconstruct_trivial")
 
     def gen(self, rng, tier):
         out = []
